@@ -19,7 +19,7 @@ OUTSIDE = ["DecompressCode / GetData / CopyAvailableData, i.e. everything that r
 LEVEL_TEXT = ("PARTIAL: bounded model checking of the two leaf components of the decoder against independent descriptions - the bit reader (one-step induction: MSB-first, zero-padded past the end, never outside its buffer) "
               "and the LZHUF position prefix table (all 256 prefixes) - plus the ring-index arithmetic of the window layer (fill bound, internal-buffer extents) by one-step induction with the window untouched; the adaptive Huffman tree is C15. "
               "The window contents (DecompressCode, copying drain) could not be decided within the solver budget and are not claimed.")
-LEVEL_NOTE = "Native replay uses the same harness with the real Huffman layer disabled only in the solver; counterexamples of stubbed queries are replayed through the generated code when they cannot be replayed natively."
+LEVEL_NOTE = "Stubs: the Huffman tree constructor is replaced by an empty tree in the solver only (the native replay runs the real constructor; the tree is never consulted in these queries); in the two ring-index queries DecompressCode is replaced by its index contract in the solver (IR-level redirect) AND in the native replay build (the real object is linked with that one symbol weakened), so their counterexamples replay against the real FillDecompressBuffer/GetInternalBuffer."
 
 
 def queries(tier):
